@@ -27,6 +27,7 @@ type backend struct {
 	panics      int         // panics injected so far
 	errKinds    bool        // draw error *values* of many kinds (linux / syscall errno, os.Err*, wrapped, opaque)
 	dirRoot     bool        // the root is always a directory
+	attrByH     bool        // GetAttr answers a fixed function of the handle (content checks under concurrency)
 	fillByOff   bool        // ReadAt fills the buffer with byte(offset)
 	panicOn     string      // the next call of this method panics (once)
 	fs          *memfs      // if set: outcomes of the tree operations come from this file system (K5)
@@ -247,10 +248,16 @@ func (b *backend) attrFor(h int) (p9.AttrMask, uint64, p9.Attr, []uint64) {
 	a := p9.Attr{Mode: p9.FileMode(b.kind[h]), UID: p9.UID(b.r.bits(32)), GID: p9.GID(b.r.bits(32)), NLink: p9.NLink(b.r.bits(8)), RDev: p9.Dev(b.r.bits(16)),
 		Size: b.r.bits(40), BlockSize: 4096, Blocks: b.r.bits(20), ATimeSeconds: b.r.bits(32), ATimeNanoSeconds: b.r.bits(30), MTimeSeconds: b.r.bits(32),
 		MTimeNanoSeconds: b.r.bits(30), CTimeSeconds: b.r.bits(32), CTimeNanoSeconds: b.r.bits(30), BTimeSeconds: 0, BTimeNanoSeconds: 0, Gen: b.r.bits(8), DataVersion: b.r.bits(8)}
+	if b.attrByH {
+		a.Size, a.Blocks, a.ATimeSeconds, a.MTimeSeconds = attrWord(h, 1), attrWord(h, 2), attrWord(h, 3), attrWord(h, 4)
+	}
 	ints := []uint64{uint64(a.Mode), uint64(a.UID), uint64(a.GID), uint64(a.NLink), uint64(a.RDev), a.Size, a.BlockSize, a.Blocks, a.ATimeSeconds, a.ATimeNanoSeconds,
 		a.MTimeSeconds, a.MTimeNanoSeconds, a.CTimeSeconds, a.CTimeNanoSeconds, a.BTimeSeconds, a.BTimeNanoSeconds, a.Gen, a.DataVersion}
 	return maskFromInt(valid), valid, a, ints
 }
+
+// attrWord: the k-th check word of handle h.
+func attrWord(h int, k int) uint64 { return uint64(h)*1000003*uint64(k) + uint64(k)*7919 + 11 }
 
 // ---- File methods --------------------------------------------------------------------------
 
